@@ -2,12 +2,20 @@ package lossy
 
 import (
 	"encoding/binary"
+	"errors"
 	"sync"
 
 	"github.com/deepteams/webp/internal/bitio"
 )
 
 var boolWriterPool sync.Pool
+
+// Errors returned when a partition does not fit the size field the VP8 frame
+// format gives it (libwebp: VP8_ENC_ERROR_PARTITION0_OVERFLOW / PARTITION_OVERFLOW).
+var (
+	ErrPartition0Overflow = errors.New("vp8: partition #0 is too big to fit 512k")
+	ErrPartitionOverflow  = errors.New("vp8: token partition is too big to fit 16M")
+)
 
 func getBoolWriter(expectedSize int) *bitio.BoolWriter {
 	if v := boolWriterPool.Get(); v != nil {
@@ -38,6 +46,17 @@ func (enc *VP8Encoder) emitFrame() ([]byte, error) {
 	}
 	enc.stats.HeaderSize = 10 + len(part0) // frame tag + pic header + partition 0
 	enc.stats.Residuals = tokenSize
+
+	// The frame tag has 19 bits for the size of partition 0 and the partition
+	// table 24 bits per token partition: refuse to write truncated size fields.
+	if len(part0) >= VP8MaxPartition0Size {
+		return nil, ErrPartition0Overflow
+	}
+	for i := 0; i < len(tokenParts)-1; i++ {
+		if len(tokenParts[i]) >= VP8MaxPartitionSize {
+			return nil, ErrPartitionOverflow
+		}
+	}
 
 	// Frame tag (3 bytes) + picture header (7 bytes for keyframe).
 	return enc.assembleFrame(part0, tokenParts), nil
